@@ -352,6 +352,13 @@ class Forall:
         return cs, seeds, self.body(*cs)
 
 
+class Focus:
+    """a proof goal whose VC leaves out every hypothesis mentioning one of the given terms (sound: fewer hypotheses; keeps the query small)"""
+
+    def __init__(self, goal, without):
+        self.goal, self.without = goal, list(without)
+
+
 class Using:
     """a proof goal together with explicitly instantiated (already proved) lemma instances"""
 
@@ -371,7 +378,7 @@ def named(items, prefix):
     out = []
     for i, it in enumerate(items):
         if isinstance(it, tuple) and len(it) == 2 and isinstance(it[0], str):
-            out.append((it[0], it[1] if (is_z3(it[1]) or isinstance(it[1], (Forall, Using))) else z3.BoolVal(bool(it[1]))))
+            out.append((it[0], it[1] if (is_z3(it[1]) or isinstance(it[1], (Forall, Using, Focus))) else z3.BoolVal(bool(it[1]))))
         else:
-            out.append(("%s%d" % (prefix, i), it if (is_z3(it) or isinstance(it, (Forall, Using))) else z3.BoolVal(bool(it))))
+            out.append(("%s%d" % (prefix, i), it if (is_z3(it) or isinstance(it, (Forall, Using, Focus))) else z3.BoolVal(bool(it))))
     return out
